@@ -143,6 +143,37 @@ func edgeKind(e *d2graph.Edge) string {
 	return ""
 }
 
+// scriptTrigger refines the class of an error raised by the JavaScript bridge with the lexical
+// mechanism that can make a generated script invalid: the dagre bridge interpolates connection ids
+// into JavaScript template literals, whose metacharacters are the back-tick and "${".
+func scriptTrigger(err error, g *d2graph.Graph) string {
+	if jsErrRe.FindString(err.Error()) == "" {
+		return ""
+	}
+	bt, db := false, false
+	var walk func(g *d2graph.Graph)
+	walk = func(g *d2graph.Graph) {
+		for _, e := range g.Edges {
+			id := e.AbsID()
+			bt = bt || strings.Contains(id, "`")
+			db = db || strings.Contains(id, "${")
+		}
+		for _, l := range [][]*d2graph.Graph{g.Layers, g.Scenarios, g.Steps} {
+			for _, b := range l {
+				walk(b)
+			}
+		}
+	}
+	walk(g)
+	switch {
+	case bt:
+		return ":connection-id-contains-backtick"
+	case db:
+		return ":connection-id-contains-dollar-brace"
+	}
+	return ":no-template-metacharacter-in-connection-ids"
+}
+
 // c17Oracle: input "engine\nsource".
 func c17Oracle(in string) eng.Res {
 	engine, src := splitIn(in)
@@ -155,7 +186,7 @@ func c17Oracle(in string) eng.Res {
 	}
 	d, g, err := layout(engine, src)
 	if err != nil {
-		return eng.Bad("layout-error:"+engine+":"+errClass(err), err.Error())
+		return eng.Bad("layout-error:"+engine+":"+errClass(err)+scriptTrigger(err, g0), err.Error())
 	}
 	if d == nil || g == nil {
 		return eng.Bad("nil-result:"+engine, "d2lib.Compile returned nil diagram or graph without error")
@@ -223,7 +254,7 @@ func c17NameOracle(in string) eng.Res {
 
 func init() {
 	eng.Register(&eng.Check{
-		ID: "C17", Level: "exploration", HangBound: 120 * time.Second,
+		ID: "C17", Level: "exploration", HangBound: 900 * time.Second,
 		QuickBudget: 170 * time.Second, ThoroughBudget: 24 * time.Minute,
 		Pre: u.WriteCorpusCache,
 		Rule: "every program of <=k statements over the layout fragment FL (leaves, 24 shapes, containers depth<=3, 16 connection forms, 4 directions, 8 constant nears, grids, sequence diagrams, label/icon positions, 3d/multiple/stroke/size styles, special names, boards) laid out through d2lib.Compile with dagre and with ELK, plus a name family (every object name of <=2 symbols over a 37-symbol alphabet in the forms N, N -> b, c: {N}) and every compilable .d2 file of the repository; non-trivial = the diagram compiles, the engine supports its features and it has at least one object; outcome = multiset of laid-out boxes and route lengths",
